@@ -1,6 +1,7 @@
 package simkit
 
 import (
+	"sync/atomic"
 	"container/heap"
 	"context"
 	"runtime/pprof"
@@ -68,6 +69,9 @@ type Sim struct {
 	MaxTime  time.Duration
 	Capped   bool
 	CappedBy string
+	// WatchSite selects yield sites whose passes are counted in WatchPasses (see passed)
+	WatchSite   func(site string) bool
+	WatchPasses int64
 	SimElapsed time.Duration
 
 	freeRun bool
@@ -422,12 +426,24 @@ func (s *Sim) Park(site string) {
 // subset of the sites is active.
 func (s *Sim) Yield(site string) {
 	if s.freeRun || s.NoYield > 0 {
+		s.passed(site)
 		return
 	}
 	if s.YieldOn != nil && !s.YieldOn(site) {
+		s.passed(site)
 		return
 	}
 	s.Park("y:" + site)
+	s.passed(site)
+}
+
+// passed counts, per watched site, the goroutines that went past the yield point (whether or
+// not they parked there): the statement behind the site runs in the same scheduling slice, so
+// "nobody passed site X between two instants" means the statement did not run in between.
+func (s *Sim) passed(site string) {
+	if s.WatchSite != nil && s.WatchSite(site) {
+		atomic.AddInt64(&s.WatchPasses, 1)
+	}
 }
 
 // Pick is used by the priority-select rewrite: returns the rotation for a
